@@ -15,8 +15,8 @@ C2S: seeded random forms (up to 8 parts, long unicode names, binary contents, ra
      the specification's encoding and that the parse result equals the form (Trace_Forms).
 
 Binding demonstrated during development (notes/websec.md): `part[eoh + 4 : -2]` -> `-1`,
-dropping the `except Exception` wrapper's HTTPInputError conversion, and `>` -> `>=` in the
-header-size limit were each reported as VIOLATION.
+narrowing the `except Exception` -> HTTPInputError conversion, and removing the max_parts check
+were each reported as VIOLATION.
 """
 import json
 import time
@@ -43,7 +43,7 @@ def _trace_sig(t, bad, l):
 def run(ctx):
     subs = ctx.pick({}, {"TextSet": "Texts3", "DataSet": "Datas4", "ArbLen": 6})
     r, states = W.tlc_states(ctx, "Forms", W.cfg_with(ctx, "MC_Forms.cfg", subs), label="MC_Forms.cfg", coverage=True,
-                             required_actions=["Mutate", "ArbPut", "Limits"])
+                             required_actions=["Mutate", "ArbPut", "Limits"], timeout=ctx.pick(900, 1500))
     _BASES.clear()
     scen = []
     for st in states:
